@@ -6,7 +6,8 @@
    of primitive transactions (Structure.v) and every primitive transaction keeps the ledger (LedgerProofs.v). *)
 From Coq Require Import ZArith QArith List.
 From Basana Require Import Num.DecQ Exchange.Model Exchange.AcctProofs Exchange.StepProofs Exchange.OpProofs
-     Exchange.Prims Exchange.Structure Exchange.LedgerProofs.
+     Exchange.Prims Exchange.Structure Exchange.LedgerProofs
+     Exchange.Reconfig Exchange.ReconfigProofs.
 Import ListNotations.
 Open Scope Q_scope.
 
@@ -95,3 +96,17 @@ Proof.
   cbv zeta. split; [cbn; discriminate|]. split; [repeat constructor; cbn; discriminate|].
   vm_compute. repeat split; reflexivity.
 Qed.
+
+(* the same, along histories in which a strategy changes precisions (Exchange.set_symbol_precision / set_pair_info)
+   between any two operations: the ledger does not depend on the configuration staying fixed *)
+Theorem C01_ledger_holds_under_reconfiguration : forall c initial xs x,
+  cfg_ok c -> xops_ok xs -> (forall kv, In kv initial -> 0 <= snd kv) ->
+  let s := snd (xrun (c, init_st initial) xs) in
+  total (s_acct s) x == vget (bal (init_acct initial)) x + osum x s - psum x s.
+Proof. exact ledger_reachable_reconf. Qed.
+Print Assumptions C01_ledger_holds_under_reconfiguration.
+
+(* a history without setters is a history of the plain model: the theorem above extends the one before it *)
+Theorem C01_reconfiguration_layer_is_conservative : forall c ops s, xrun (c, s) (map XOp ops) = (c, run c s ops).
+Proof. exact xrun_plain. Qed.
+Print Assumptions C01_reconfiguration_layer_is_conservative.
